@@ -210,11 +210,18 @@ def run(ctx: Ctx, repo: Repo, tier: str) -> None:
     # stage conditions whose failure alone already breaks C01 (decided in full under the stage's own property):
     # every element of a container is inspected, every exit of a frame records its value's type, distinct rows survive the query
     from . import c02 as _c02, c04 as _c04, c09 as _c09
-    ctx.note("R-C04.1/R-C04.2, R-C02.1/R-C02.2 and R-C09.1-3 below are the stage rules of C04, C02 and C09, run here as necessary conditions of C01")
+    ctx.note("R-C04.1/R-C04.2, R-C02.1/R-C02.2, R-C09.1-3, R-C07.1-3/7 and R-C14.1a below are the stage rules of C04, C02, C09, C07 and C14, run here as necessary conditions of C01")
     ctx.attempt(_c04.rule_get_type, ctx, repo)
     ctx.attempt(_c04.rule_dict_type, ctx, repo)
     ctx.attempt(_c02.rule_return_table, ctx, repo)
     ctx.attempt(_c09.rule_query, ctx, repo)
+    # the shipped rewriters never narrow (R-C07.1/2/3/7): the rewritten type is what the stub shows
+    from . import c07 as _c07
+    ctx.attempt(_c07.rule_rewriters, ctx, repo, "quick")
+    ctx.attempt(_c07.rule_nested, ctx, repo)
+    # every trace's argument / return / yield type reaches the per-function sets that are merged (nothing dropped per trace)
+    from . import c14 as _c14
+    ctx.attempt(_c14.rule_traces_to_sets, ctx, repo)
     from . import c11 as _c11
     ctx.attempt(_c11.rule_pipeline_core, ctx, repo, "R-C01.6")
     ctx.settle()
